@@ -88,7 +88,8 @@ func (pl *Playlist) M3u8(token string) ([]byte, error) {
 		}
 	}
 
-	return w.Bytes(), nil
+	// w 会被放回对象池，必须返回副本，否则并发请求会相互覆盖内容
+	return append([]byte(nil), w.Bytes()...), nil
 }
 
 // Segment 获取 segment
